@@ -405,7 +405,10 @@ func (w *World) enabled() []core.WCmd {
 				}
 				add(wt, core.Cmd{A: "tick", I: in.idx})
 				add(p.StopW, core.Cmd{A: "stop", I: in.idx})
-			} else if !w.cacheParked(in) {
+			} else if !w.cacheParked(in) && w.timeMoves == in.tickMoves {
+				// only while no time has passed since the tick that started this
+				// round: otherwise the ticker holds a tick, and whether the sequencer
+				// sees the cancellation or that tick first is Go's random select
 				add(p.StopW, core.Cmd{A: "stop", I: in.idx, S: "mid-round"})
 			}
 			if w.crashes < p.MaxCrashes {
@@ -478,7 +481,7 @@ func (w *World) enabled() []core.WCmd {
 			add(wt, c)
 		}
 	}
-	if p.StallW > 0 {
+	if p.StallW > 0 && !w.stopping() {
 		ds := []int64{1, 7, 300, 1000, 1001, 2500, 15001, 61000}
 		add(p.StallW, core.Cmd{A: "adv", N: ds[r.Intn(len(ds))]})
 		// a stall past the strict timeout while the checkpoint upload or the
@@ -590,7 +593,12 @@ func (w *World) exec(c core.Cmd) bool {
 		if in == nil || in.state != stRunning || in.dead {
 			return false
 		}
+		if w.stopping() {
+			return false
+		}
 		time.Sleep(in.untilNextTick())
+		w.timeMoves++
+		in.tickMoves = w.timeMoves
 		return true
 	case "bulk":
 		in := w.inst(c.I)
@@ -639,7 +647,11 @@ func (w *World) exec(c core.Cmd) bool {
 		if c.N <= 0 {
 			return false
 		}
+		if w.stopping() {
+			return false
+		}
 		time.Sleep(time.Duration(c.N) * time.Millisecond)
+		w.timeMoves++
 		w.sim.Probe("fault.stall")
 		return true
 	case "submit":
@@ -689,7 +701,11 @@ func (w *World) exec(c core.Cmd) bool {
 			return false
 		}
 		if w.instParked(in) != 0 {
+			if w.timeMoves != in.tickMoves {
+				return false
+			}
 			w.sim.Probe("stop.mid-round")
+			in.stopping = true
 		}
 		in.seqCancel()
 		w.sim.Probe("stop")
